@@ -37,6 +37,9 @@ type Evidence struct {
 
 func (e *Evidence) Write() error {
 	dir := filepath.Join(Root(), "evidence")
+	if d := os.Getenv("VERIF_EVIDENCE_DIR"); d != "" {
+		dir = d // mutation runs must not overwrite the evidence of the real tree
+	}
 	if err := os.MkdirAll(dir, 0o755); err != nil {
 		return err
 	}
@@ -111,6 +114,9 @@ type Replay struct {
 
 func WriteReplay(r *Replay) (string, error) {
 	dir := filepath.Join(Root(), "replays")
+	if d := os.Getenv("VERIF_REPLAY_DIR"); d != "" {
+		dir = d
+	}
 	if err := os.MkdirAll(dir, 0o755); err != nil {
 		return "", err
 	}
